@@ -304,12 +304,11 @@ def check_scu(ctx, case):
     classes = [f"scu:{op}:{dsc}", "ts:" + ts, f"maxpdu:{maxpdu}"]
     if rejected:
         classes.append(f"api-rejected:{type(outcome).__name__}")
-    checked = check_all(ctx, a, log, f"SCU {op}({dsc})")
-    nontrivial = (not rejected) and dsc in ("absent", "empty", "file-chunked-nodata") and len(checked) > 0
-    frag = any(len(m.data) > 1 for m, _, _ in checked)
-    if frag:
-        classes.append("data-fragmented")
+    nontrivial = (not rejected) and dsc in ("absent", "empty", "file-chunked-nodata") and len(log) > 0
     ctx.note(case, nontrivial=nontrivial, classes=classes)
+    checked = check_all(ctx, a, log, f"SCU {op}({dsc})")
+    if any(len(m.data) > 1 for m, _, _ in checked):
+        ctx.cls("data-fragmented")
     if rejected:
         return
     if not checked:
@@ -432,7 +431,7 @@ def check_scp(ctx, case):
     from pynetdicom import evt
 
     op, ts, maxpdu, rsp = case["op"], case["ts"], case["maxpdu"], case["rsp"]
-    abstract = SCP_ABSTRACT.get(op, K.FILM_SESSION)
+    abstract = case.get("model") or SCP_ABSTRACT.get(op, K.FILM_SESSION)
     contexts = [(abstract, ts, False, True, 1)]
     if op == "c_get":
         contexts.append((K.CT, ts, True, False, 3))  # acceptor is SCU of the storage context (role selection)
@@ -488,22 +487,25 @@ def check_scp(ctx, case):
         a.bind(ev, lambda e: (items[0][0], items[0][2]))
 
     req = _request(op, ts, case.get("elems"))
+    if case.get("model"):
+        req.AffectedSOPClassUID = case["model"]
     try:
         with no_sleep():
             a._serve_request(req, 1)
     except Exception as e:
         raise HarnessError(f"_serve_request raised {e!r} for {case}")
+    dcls = sorted({cls for _, cls, _ in rsp})
+    n_sent = len(log) + (len(store_log) if store_log is not None else 0)
+    classes = [f"scp:{op}", "ts:" + ts, f"maxpdu:{maxpdu}"] + (["scp-find-model:" + case["model"]] if case.get("model") else []) + [f"scp:{op}:{c}" for c in dcls] + [f"scp-messages:{min(n_sent, 4)}"]
+    nontrivial = n_sent > 0 and any(c in ("absent", "empty", "unencodable") for c in dcls)
+    ctx.note(case, nontrivial=nontrivial, classes=classes)
     checked = check_all(ctx, a, log, f"SCP {op}")
     if store_assoc is not None:
         checked += check_all(ctx, store_assoc, store_log, f"SCP {op} (C-STORE sub-operation association)")
-    dcls = sorted({cls for _, cls, _ in rsp})
-    classes = [f"scp:{op}", "ts:" + ts, f"maxpdu:{maxpdu}"] + [f"scp:{op}:{c}" for c in dcls] + [f"scp-messages:{min(len(checked), 4)}"]
     if any(len(m.data) > 0 for m, _, _ in checked):
-        classes.append("scp-response-with-dataset")
+        ctx.cls("scp-response-with-dataset")
     if any(len(m.data) > 1 for m, _, _ in checked):
-        classes.append("data-fragmented")
-    nontrivial = len(checked) > 0 and any(c in ("absent", "empty", "unencodable") for c in dcls)
-    ctx.note(case, nontrivial=nontrivial, classes=classes)
+        ctx.cls("data-fragmented")
 
 
 CHECKS = {"scu": check_scu, "scp": check_scp}
@@ -548,6 +550,8 @@ def strategies():
         if op in ("c_echo", "c_store", "n_delete"):
             case["rsp"] = [[draw(st.sampled_from([0x0000, 0x0110, 0xA700, 0xB000, 0x0122])), "absent", []]]
         elif op == "c_find":
+            # QR find, Modality Worklist, Relevant Patient Information (single-response SCP), UPS Pull (service_class_n)
+            case["model"] = draw(st.sampled_from([K.PR_FIND, K.PR_FIND, "1.2.840.10008.5.1.4.31", "1.2.840.10008.5.1.4.37.1", K.UPS_PULL]))
             it = []
             for _ in range(draw(st.integers(0, 3))):
                 it.append([draw(st.sampled_from([0xFF00, 0xFF00, 0xFF01])), draw(st.sampled_from(["nonempty", "nonempty", "nonempty", "empty", "absent", "unencodable"])), draw(elems())])
